@@ -50,6 +50,10 @@ type faultDeleter struct {
 }
 
 func (f faultDeleter) Delete(ctx context.Context, key []byte) error {
+	if f.w != nil && f.w.nestedRunning {
+		return f.d.Delete(ctx, key) // deletes of a nested (re-entrant) invalidation are not positions of the outer one
+	}
+
 	n := *f.calls
 	*f.calls++
 
@@ -130,6 +134,10 @@ type lblWorld struct {
 	injectAt    int
 	injectArmed bool // only the final invalidation of a run is subject to the injection
 	inject      func()
+	// a nested InvalidateByLabels running inside a deleter of the outer one
+	nestedRunning bool
+	nestedLabels  []string
+	nestedCount   int
 	during      []lblOp
 }
 
@@ -211,11 +219,22 @@ func (w *lblWorld) invalidate(labels []string, failAt int, trace bool) error {
 	}
 
 	c.Assert(panicked == nil, "invalidate-panic", "InvalidateByLabels(%v) with delete #%d failing panicked: %v", labels, failAt, panicked)
-	c.Assert(cnt == removed, "count", "InvalidateByLabels(%v) failAt=%d returned count %d, %d entries were actually removed", labels, failAt, cnt, removed)
+	c.Assert(cnt+w.nestedCount == removed, "count", "InvalidateByLabels(%v) failAt=%d returned count %d (+%d reported by a nested call), %d entries were actually removed", labels, failAt, cnt, w.nestedCount, removed)
+	w.nestedCount = 0
 
 	inL := map[string]bool{}
 	for _, l := range labels {
 		inL[l] = true
+	}
+
+	// labels invalidated by a nested call count for precision (their keys may legitimately go)
+	precise := map[string]bool{}
+	for l := range inL {
+		precise[l] = true
+	}
+
+	for _, l := range w.nestedLabels {
+		precise[l] = true
 	}
 
 	// keys never labelled (under this name) with any label of L must be untouched
@@ -229,7 +248,7 @@ func (w *lblWorld) invalidate(labels []string, failAt int, trace bool) error {
 
 				labelled := false
 
-				for l := range inL {
+				for l := range precise {
 					if w.ever[n][l][k] {
 						labelled = true
 					}
@@ -287,6 +306,37 @@ func (w *lblWorld) invalidate(labels []string, failAt int, trace bool) error {
 	}
 
 	mergeDuring()
+
+	return nil
+}
+
+// invalidateRelaxed invalidates labels and requires every key that was ever labelled with one of them
+// (and not re-written since) to be gone; used after nested invalidations, where which call consumed
+// which label depends on their interleaving.
+func (w *lblWorld) invalidateRelaxed(labels []string) error {
+	_, err := w.idx.InvalidateByLabels(bg, labels...)
+	if err != nil {
+		return err
+	}
+
+	// second pass: anything put back by a failed outer call is indexed again and goes now
+	_, err = w.idx.InvalidateByLabels(bg, labels...)
+	if err != nil {
+		return err
+	}
+
+	after := w.snapshot()
+
+	for n := range w.caches {
+		for _, l := range labels {
+			for k := range w.current[n][l] {
+				for i := range w.caches[n] {
+					w.c.Assert(!after[fmt.Sprintf("%d/%d/%s", n, i, k)], "lost-on-nested-invalidation",
+						"key %q labelled %q in cache %s#%d survived the invalidations (final labels %v, nested %v): it was dropped from the index", k, l, lblNames[n], i, w.st.final, w.nestedLabels)
+				}
+			}
+		}
+	}
 
 	return nil
 }
@@ -485,6 +535,47 @@ func propLabels(c *Case) {
 		}
 
 		c.Class("reentrant-addlabels-enumerated")
+
+		// a second InvalidateByLabels entering while the first one runs (from inside a deleter), at
+		// every position, alone and followed by a failing position; afterwards everything labelled with
+		// any of the labels of either call must be gone
+		nested := drawLabels(c, 2, 1)
+		all := append(append([]string{}, st.final...), nested...)
+		combos = 0
+
+		for p := 0; p < issued; p++ {
+			for f := -1; f < issued && combos < 80; f++ {
+				if f >= 0 && f <= p {
+					continue
+				}
+
+				combos++
+
+				w := newLblWorld(c, st)
+				w.injectAt = p
+				w.nestedLabels = nested
+				w.inject = func() {
+					w.inject = nil
+					w.nestedRunning = true
+					w.nestedCount, _ = w.idx.InvalidateByLabels(bg, nested...)
+					w.nestedRunning = false
+				}
+				w.run(f, false)
+
+				// the nested call consumed its labels as far as it could see them; a final call settles the rest
+				for n := range w.current {
+					for _, l := range nested {
+						_ = n
+						_ = l
+					}
+				}
+
+				err := w.invalidateRelaxed(all)
+				c.Assert(err == nil, "unexpected-error", "invalidation after a nested one returned %v", err)
+			}
+		}
+
+		c.Class("reentrant-invalidate-enumerated")
 	}
 
 	st2 := statsFor("C15", "C15Labels", c15Rule)
